@@ -125,4 +125,14 @@ CHECKS = {
                 'author schedule values; separator before the note not prescribed.',
         'technique': 'exhaustive enumeration + property-based testing (Hypothesis); differential twin without the feature',
     },
+    'C18': {
+        'text': 'Exhaustive grids (16 flag combinations x short expected/submission pairs; whitespace-symbol placements; '
+                'min_length x min_words x explain_minimums x accept modes; 28 validation patterns x submissions x '
+                'explain_validation x modes) plus Hypothesis strings over a mixed alphabet, judged against a '
+                'character-level model of the configured cleaning written from the statement, under every reading the '
+                'statement leaves open (cases where the readings disagree are discarded).',
+        'note': 'Trusts the character-level model; ambiguous CR/LF runs and locale-dependent case folding are discarded.',
+        'technique': 'exhaustive enumeration + property-based testing (Hypothesis) against a reference model of string '
+                     'cleaning; metamorphic single-character edits',
+    },
 }
